@@ -1,10 +1,12 @@
 package h
 
+import "encoding/binary"
+
 // Directed histories: the shapes random generation reaches only rarely. Each keeps its
 // structure and draws sizes, alignments and time options from the case's generator, so that a
 // pair of runs of one case (other backend, other wall-clock time) sees the same history.
 
-const NScenarios = 7
+const NScenarios = 8
 
 func part(r *Rng, pt int32, size int, align int) DInput {
 	d := DInput{Type: DataPartition, Content: GenContent(r, size), FailAfter: -1,
@@ -156,6 +158,50 @@ func scenario(k int, r *Rng, p GenParams) (dis []DInput, ops []Op, det bool) {
 			{Kind: OpSetMeta, ID: 1, Md: Meta{Kind: MdRaw, Raw: GenContent(r, 6)}, T: TOpt{Kind: TDefault}},
 			{Kind: OpAdd, DI: obj(r, DataGeneric, small(), 1, 0), T: TOpt{Kind: TDefault}},
 		}
+	case 7:
+		// type-specific metadata of every kind and value, written at creation and by AddObject,
+		// read back through the typed accessors (the meta queries) before and after a reload
+		sig := func(hh int, fp []byte) DInput {
+			d := obj(r, DataSignature, small(), Pick(r, []uint32{0, 1, 2}), 0)
+			d.MdSet, d.Md = true, Meta{Kind: MdRaw, How: "signature", SigHash: hh, SigFP: fp, Raw: encSignature(sifHashType(hh), fp)}
+			return d
+		}
+		num := func(t int32, how string, vals ...int32) DInput {
+			d := obj(r, t, small(), 1, 0)
+			raw := make([]byte, 4*len(vals))
+			for i, v := range vals {
+				binary.LittleEndian.PutUint32(raw[4*i:], uint32(v))
+			}
+			d.MdSet, d.Md = true, Meta{Kind: MdRaw, How: how, A: vals[0], B: vals[len(vals)-1], Raw: raw}
+			return d
+		}
+		hashes := []int{5, 6, 7, 16, 17, 3}
+		for i, hh := range hashes {
+			fp := GenContent(r, 20)
+			if i == r.Intn(len(hashes)) {
+				fp = nil
+			}
+			if i%2 == 0 {
+				dis = append(dis, sig(hh, fp))
+			} else {
+				ops = append(ops, add(r, p, sig(hh, fp)))
+			}
+		}
+		dis = append(dis, num(DataCryptoMessage, "crypto", int32(1+r.Intn(2)), int32(Pick(r, []int{0x100, 0x200}))),
+			num(DataSBOM, "sbom", int32(1+r.Intn(8))))
+		for i := 0; i < 3; i++ {
+			d := part(r, int32(Pick(r, []int{1, 3, 4})), small(), 0)
+			d.Md.Arch = ArchNames[(len(ArchNames)-1-i+r.Intn(2)*6)%len(ArchNames)]
+			if i == 0 {
+				d.TimeSet, d.Time = true, 0
+				dis = append(dis, d)
+			} else {
+				ops = append(ops, add(r, p, d))
+			}
+		}
+		e := obj(r, DataGeneric, small(), 1, 0)
+		e.TimeSet, e.Time = true, 0
+		ops = append(ops, add(r, p, num(DataSBOM, "sbom", int32(1+r.Intn(8)))), add(r, p, e), Op{Kind: OpReload})
 	default:
 		// one of each kind of object added through AddObject, read back and selected
 		dis = []DInput{obj(r, DataOCIBlob, small(), 1, 0)}
